@@ -38,11 +38,14 @@ Cir(g1, g2, g3) == [L |-> 12, circ |-> TRUE, cutoff |-> 3, locs |-> <<g1, g2, g3
 LinPos == {Simple(4, 5, 1), Simple(5, 6, -1), Simple(9, 11, 1), Simple(12, 13, 1), Simple(13, 14, -1), Simple(18, 19, 1)}
 CirPos == {Simple(10, 11, 1), Simple(8, 9, -1), Simple(9, 10, 1), Simple(4, 5, 1), Simple(5, 6, -1),
            Loc(<< <<11, 12>>, <<0, 1>> >>, 1), Loc(<< <<0, 1>>, <<11, 12>> >>, -1)}
+(* next to a spliced focus gene that does not itself reach over the origin: the way through the origin still counts *)
+CirPos3 == {Simple(10, 11, 1), Simple(8, 9, -1), Simple(4, 5, 1), Simple(5, 6, -1), Loc(<< <<11, 12>>, <<0, 1>> >>, 1)}
 CirPos2 == {Simple(9, 10, 1), Simple(8, 9, 1), Simple(3, 4, -1), Simple(4, 5, 1), Simple(6, 7, 1)}
 Layouts == {Lin(Simple(8, 10, 1), x, y) : x \in LinPos, y \in LinPos}
            \cup {Cir(Simple(0, 2, 1), x, y) : x \in CirPos, y \in CirPos}
            \cup {Cir(Loc(<< <<11, 12>>, <<0, 1>> >>, 1), x, y) : x \in CirPos2, y \in CirPos2}
            \cup {Cir(Loc(<< <<0, 1>>, <<10, 12>> >>, -1), x, y) : x \in CirPos2, y \in CirPos2}
+           \cup {Cir(Loc(<< <<0, 1>>, <<2, 3>> >>, 1), x, y) : x \in CirPos3, y \in CirPos3}
 GeneHits == {a \o b \o c : a \in {<<>>, <<[p |-> "a", s |-> 40]>>, <<[p |-> "a", s |-> 60]>>},
                            b \in {<<>>, <<[p |-> "b", s |-> 30]>>}, c \in {<<>>, <<[p |-> "c", s |-> 70]>>}}
 NoHits == <<<<>>, <<>>, <<>>>>
